@@ -28,6 +28,8 @@ def run(ctx, rep):
     image_new(prog, rep)
     pixel_and_draw(prog, rep)
     contiguous_count(prog, rep)
+    import witness
+    witness.check(rep, "W09", ["W09Short", "W09Long", "W09Exact"])
 
 
 def sub_image(prog, rep):
